@@ -140,9 +140,10 @@ func init() {
 			d = 6
 		}
 		jobs = append(jobs, s1job("two-sessions", d-2, []string{"C14"}, 4, 300))
+		jobs = append(jobs, floodResumeJob())
 		return jobs
 	}, check.PropInfo{
-		Rule:        "IN: full product of recipient lists (all ordered lists of length <=4 (thorough: <=5) over {every member incl. the sender, an unknown id, an id valid only in another session}, plus a 600-entry list) x body lengths {0,1,10236..10244} x byte patterns {zeros, 0xff, ramp, protobuf-looking}, in sessions of 1-4 members with a second session alive; every case executed on the real server and compared with the model (recipients = named ∩ members − sender, once each; body identical; TOO_LARGE iff > 10240)",
+		Rule:        "IN: full product of recipient lists (all ordered lists of length <=4 (thorough: <=5) over {every member incl. the sender, an unknown id, an id valid only in another session}, plus a 600-entry list) x body lengths {0,1,10236..10244} x byte patterns {zeros, 0xff, ramp, protobuf-looking}, in sessions of 1-4 members with a second session alive; every case executed on the real server and compared with the model (recipients = named ∩ members − sender, once each; body identical; TOO_LARGE iff > 10240); plus a flood: 600 messages relayed to a member that stops reading and resumes - none lost, none reordered",
 		Assumptions: s1Assumptions,
 	})
 
